@@ -1,0 +1,7 @@
+//go:build !verif
+
+package server
+
+// verifSync marks a point at which a background loop has finished handling one item.
+// It does nothing unless the package is built with the "verif" tag.
+func verifSync(point string, key string) {}
